@@ -9,7 +9,8 @@ import vlib
 LEVEL = "proof"
 PROPS = "Trace/Props_C05.v"
 COQ_FILES = ["Trace/Model.v", "Trace/Proofs.v", "Trace/Props_C05.v"]
-THEOREMS = ["origin_correct", "origin_unique", "trace_one_eq_origin", "trace_eq_origin",
+THEOREMS = ["origin_correct", "origin_unique", "walk_eq_origin", "trace_one_eq_origin", "trace_eq_origin_on_D",
+            "view_of_regular_location", "symlinked_location_refuted", "sorted_locations_refuted",
             "readded_attributed_to_readder", "untouched_layers_irrelevant", "align_history"]
 CORR = ("Scanner.ScanContainer -> trace.PopulateLayerDetails (Go) on real images vs Trace.Model.trace_all / align "
         "(Coq, vm_compute)")
@@ -17,14 +18,17 @@ CORR = ("Scanner.ScanContainer -> trace.PopulateLayerDetails (Go) on real images
 META = {
     "technique": "Coq proof that the backwards walk with skip branch and (location, layer) cache computes the brute-force "
                  "origin for every history + vm_compute correspondence against ScanContainer on real images",
-    "level_text": "Theorem trace_eq_origin: for every history (any number of layers and files, any interleaving of "
-                  "write / delete / untouched / empty layers, any packages per file, any processing order, shared cache) "
-                  "the model of PopulateLayerDetails attributes each package of the final view to origin = the earliest "
-                  "layer L with the package present in every view L..last (origin_correct: that value is the declarative "
-                  "one and minimal). Corollaries: re-added packages go to the re-adder, untouched/empty layers only shift "
-                  "indices, history alignment (align_history). The model is tied to the code on every run by running the "
-                  "real ScanContainer on generated images (all histories up to 3/4 layers over one file and two "
-                  "packages + random 1..6-layer histories over 3 files x 4 packages incl. history mismatches).",
+    "level_text": "Theorem walk_eq_origin: over ANY sequence of views and ANY layer-diff test the loop of "
+                  "PopulateLayerDetails returns origin = the earliest layer L with the package present in every view "
+                  "L..last (origin_correct: the declarative, minimal value) whenever skipping is sound (skip_sound) and no "
+                  "extraction cancels the context. trace_eq_origin_on_D instantiates it for images: any number of layers and "
+                  "files, write / delete / untouched / empty layers, several packages per file, the same key in several "
+                  "files, packages with several locations, any processing order, shared cache -- on the domain D (first "
+                  "reported location = source file, never a symlink). Outside D the statement is refuted twice "
+                  "(symlinked_location_refuted, sorted_locations_refuted: two known findings). Corollaries: re-added "
+                  "packages go to the re-adder, untouched/empty layers only shift indices, history alignment. Tied to the "
+                  "code on every run by the real ScanContainer on generated images (exhaustive small histories, random "
+                  "histories, multi-location, symlinked-location (ReadSymlinks) and context-cancelling streams).",
     "level_note": "Trusted: Coq kernel + vm_compute; Go harness (image building, a line extractor defined by the harness, "
                   "id mapping of diff IDs / commands); views are taken as the overlay of whole-file writes/deletes (their "
                   "correctness is C04's subject); one extractor per location (the cache key omits the extractor).",
@@ -60,6 +64,8 @@ def _run_part(ctx, binp, tag, args, tmpdir):
             raise RuntimeError("cases file %s failed: %s" % (f, cout[-1500:]))
         res["corr"] += [k * per + i for i in cb]
         res["spec"] += [k * per + i for i in sb]
+        res["outside_D"] = res.get("outside_D", 0) + (vlib.parse_printed_list(cout, "outside_D") or [0])[0]
+        res["strict_bad"] = res.get("strict_bad", 0) + (vlib.parse_printed_list(cout, "strict_bad") or [0])[0]
         for ext in (".vo", ".vok", ".vos", ".glob"):
             try:
                 os.remove(f[:-2] + ext)
@@ -83,13 +89,13 @@ def _views(case):
     else:
         chain = [l or [] for l in layers]
     out = {}
-    for f in range(3):
+    for f in range(5):
         cur, vs, touched = None, [], 0
         for ops in chain:
             for o in ops:
                 if o["file"] == f:
                     touched += 1
-                    cur = tuple(o.get("pkgs") or []) if o["op"] == "write" else None
+                    cur = tuple(o.get("pkgs") or []) if o["op"] == "write" else None   # a link shows nothing of its own
             vs.append(cur)
         out[f] = (vs, touched)
     return out
@@ -117,12 +123,14 @@ def _replay_eval(ctx, binp, case_obj, name):
     term = [l[len("coq-case: "):] for l in out.splitlines() if l.startswith("coq-case: ")]
     v = ("From Coq Require Import List NArith Bool.\nFrom Scalibr Require Import Trace.Model.\nImport ListNotations.\n"
          "Open Scope N_scope.\nDefinition c : tcase := %s.\n"
-         "Definition flags := Eval vm_compute in [case_model_ok c; case_spec_ok c].\nPrint flags.\n"
-         "Definition model := Eval vm_compute in match chain_layers c with Some h => map (details h) (trace_all h (case_pkgs c) []) | None => [] end.\nPrint model.\n"
-         "Definition spec := Eval vm_compute in match chain_layers c with Some h => map (fun o => details h (origin (ops_of h (po_loc o)) (po_pkg o))) (t_obs c) | None => [] end.\nPrint spec.\n"
+         "Definition flags := Eval vm_compute in [case_model_ok c; case_spec_ok c; case_spec_strict_ok c].\nPrint flags.\n"
+         "Definition model := Eval vm_compute in match chain_layers c with Some h => map (details h) (trace_all h (case_pkgs c) [] false) | None => [] end.\nPrint model.\n"
+         "Definition spec := Eval vm_compute in match chain_layers c with Some h => map (fun o => details h (origin (lview h (po_src o)) (length h) (po_pkg o))) (t_obs c) | None => [] end.\nPrint spec.\n"
          % term[0])
     rc, cout = ctx.run_cases(name, v)
-    return impl[0] if impl else None, cout
+    t = vlib.parse_printed_term(cout, "flags")
+    flags = [x.strip() == "true" for x in (t or "").strip("[]").split(";")] if t else None
+    return impl[0] if impl else None, cout, flags
 
 
 def run(ctx):
@@ -163,11 +171,11 @@ def run(ctx):
     shm = "/dev/shm" if os.path.isdir("/dev/shm") else "/tmp"
     tmpbase = os.path.join(shm, "verif_c05_%d" % os.getpid())
     if ctx.tier == "thorough":
-        nparts, exh, nrand = 14, 4, 30000
+        nparts, exh, nrand, nvar = 14, 4, 30000, 4000
     else:
-        nparts, exh, nrand = 7, 3, 700
-    parts = [("p%02d" % k, ["-seed", str(ctx.seed), "-random", str(nrand), "-exh", str(exh), "-parts", str(nparts),
-                            "-part", str(k), "-per", "150"]) for k in range(nparts)]
+        nparts, exh, nrand, nvar = 7, 3, 700, 250
+    parts = [("p%02d" % k, ["-seed", str(ctx.seed), "-random", str(nrand), "-exh", str(exh), "-variants", str(nvar),
+                            "-parts", str(nparts), "-part", str(k), "-per", "150"]) for k in range(nparts)]
     results = []
     with ThreadPoolExecutor(max_workers=14) as ex:
         futs = [ex.submit(_run_part, ctx, binp, tag, args, os.path.join(tmpbase, tag)) for tag, args in parts]
@@ -194,7 +202,11 @@ def run(ctx):
                     if not ops:
                         ops_hist["untouched_file_layers"] += 1
                     for o in ops or []:
-                        ops_hist[o["op"]] += 1
+                        ops_hist[o["op"]] = ops_hist.get(o["op"], 0) + 1
+                        if o.get("extra"):
+                            ops_hist["write_with_second_location"] = ops_hist.get("write_with_second_location", 0) + 1
+                        if -1 in (o.get("pkgs") or []):
+                            ops_hist["write_with_cancel_line"] = ops_hist.get("write_with_cancel_line", 0) + 1
                 if _nontrivial(c):
                     nontriv_cases += 1
                     seen.add(vlib.sha([c["history"], c["layers"]]))
@@ -220,8 +232,27 @@ def run(ctx):
     ctx.coverage["trusted_base"] = vlib.std_trusted_base(pa, tb_extra)
     ctx.assumptions += ["all packages of one location come from one extractor",
                         "chain-layer views of whole-file writes/deletes are the overlay (C04)"]
+    outside = sum(r.get("outside_D", 0) for r in results)
+    strict_bad = sum(r.get("strict_bad", 0) for r in results)
+    ctx.coverage["input_distribution"]["packages_outside_D_not_claimed_by_oracle"] = outside
+    ctx.coverage["input_distribution"]["images_violating_the_sentence_as_written_all_outside_D"] = strict_bad
+    ctx.coverage["stated_limit"] = ("a filesystem.Run error during the backwards walk (scan context cancelled; stream 'cancel') "
+                                    "breaks the loop and attributes the package to layer 0 -- outside the property's quantifier, "
+                                    "modelled (walk's cancelled flag) and compared on every run, not claimed by the oracle; "
+                                    "extractor errors do not take that path (partial results are used); LayerDetails.InBaseImage "
+                                    "is always false (trace.go never consults Image.BaseImageIndex); nothing is reported through a "
+                                    "symlinked directory (the image FS does not resolve intermediate links)")
     for kf in ctx.known_findings():
-        ctx.print_known(kf)
+        impl, cout, flags = _replay_eval(ctx, binp, kf["witness"], "C05_known_" + "".join(ch if ch.isalnum() else "_" for ch in kf["id"]))
+        if flags is None:
+            raise RuntimeError("known finding replay failed: " + cout[-1500:])
+        if flags[0] and not flags[2]:
+            ctx.print_known(kf)
+        else:
+            ctx.violation({"kind": "known-finding-stale", "finding": kf["id"], "stale_theorem": kf.get("refuted_theorem"),
+                           "witness": kf["witness"], "implementation": impl, "flags_model_specD_strict": flags,
+                           "explanation": "the listed witness no longer behaves as the model predicts (or no longer violates "
+                                          "the sentence as written): the refuted-theorem is no longer tied to the code"}, nofail=True)
     vlib.standard_decide(ctx, pa, corr_bad, spec_bad, cases, lambda c: c, THEOREMS, CORR)
 
 
@@ -232,7 +263,8 @@ def replay(ctx, path):
     if case is None:
         print("no case in", path)
         return 2
-    impl, cout = _replay_eval(ctx, binp, case, "C05_replay")
+    impl, cout, flags = _replay_eval(ctx, binp, case, "C05_replay")
     print("implementation:", impl)
+    print("[model_ok, spec_ok_on_D, spec_ok_as_written] =", flags)
     print(cout)
     return 0
